@@ -9,10 +9,17 @@ One turn of the loop of `maximize` (`SolverCfg.kturn`, the popped node `N` / the
 2. `process_one_node(N)`: `node.ub ≤ best_lb` → skip; `must_explore(N)` (read-only in `abstraction/cache.rs`: it does **not**
    write the cache) → skip if refused; restricted compilation consulting the cache, its `update_threshold` calls
    (`cacheUpdates`, replayed in call order by `applyUps`), `maybe_update_best`; if it is not exact the relaxed compilation
-   consulting the *updated* cache, its updates, `maybe_update_best`, `enqueue_cutset`.
+   consulting the *updated* cache, its updates, `maybe_update_best`, `enqueue_cutset` (a cut-set node keeps the bound its own
+   diagram gave it: repair of finding D14).
 
 `none` = a panic (`Vec` index out of range in the cache) or a compilation that does not end normally.
-`KStep` = a turn with a best-first pop (`MaxUB` then value, as `CStep`); `KStepAny` = a turn with an arbitrary pop. -/
+`KStep` = a turn with a best-first pop (`MaxUB` then value, as `CStep`); `KStepAny` = a turn with an arbitrary pop.
+
+**The pre-fix (capped) variant** — `SolverCfg.kprocessCapped`, `SolverCfg.kturnCapped`, `KStepAnyCapped`, `KRunAnyCapped`,
+`SolverCfg.ksolveSchedCapped`, `SolverCfg.ksolveLoopCapped` — is the same solver with the `enqueue_cutset(ub)` of the code
+before the repair of D14 (`SeqSt.enqueueCapped`: `cutset_node.ub = ub.min(cutset_node.ub)`).  It is kept only for the D14
+witnesses (`Ddo.C09.anyOrderOpt_false`, `Ddo.C09.Layered.Counter.*`, `Ddo.C09.Layered.Rise.bestub_capped`); no correctness
+theorem is stated about it. -/
 set_option linter.unusedSectionVars false
 set_option linter.unusedVariables false
 namespace Ddo.C09
@@ -172,7 +179,7 @@ def _root_.Ddo.C01.SolverCfg.kprocess (sv : SolverCfg S) (st : SeqSt S) (c0 : Ca
             | some c2 =>
               let st2 := st1.updateBest (toOut (sv.cresX c1 N st1.bestLb))
               if (sv.cresX c1 N st1.bestLb).isExact then some ⟨st2, c2⟩
-              else some ⟨st2.enqueue sv.dedup N.ub (sv.cresX c1 N st1.bestLb).cutset, c2⟩
+              else some ⟨st2.enqueue sv.dedup (sv.cresX c1 N st1.bestLb).cutset, c2⟩
 
 /-- one turn of the loop of `maximize`, `N` being the popped node and `rest` what is left in the fringe -/
 def _root_.Ddo.C01.SolverCfg.kturn (sv : SolverCfg S) (s : KSt S) (N : SubP S) (rest : List (SubP S)) : Option (KSt S) :=
@@ -188,7 +195,7 @@ inductive KStep (sv : SolverCfg S) : KSt S → KSt S → Prop
       (hmax : ∀ c ∈ rest, c.ub < N.ub ∨ (c.ub = N.ub ∧ c.value ≤ N.value))
       (hturn : sv.kturn s N rest = some t) : KStep sv s t
 
-/-- one turn with an arbitrary pop (a custom `SubProblemRanking`) -/
+/-- one turn with an arbitrary pop (a custom `SubProblemRanking`, or sub-problems processed out of order) -/
 inductive KStepAny (sv : SolverCfg S) : KSt S → KSt S → Prop
   | pop (s t : KSt S) (N : SubP S) (rest : List (SubP S))
       (hpop : s.st.fringe.Perm (N :: rest))
@@ -198,6 +205,10 @@ inductive KStepAny (sv : SolverCfg S) : KSt S → KSt S → Prop
 inductive KRun (sv : SolverCfg S) : KSt S → KSt S → Prop
   | refl (s : KSt S) : KRun sv s s
   | tail {s t u : KSt S} : KRun sv s t → KStep sv t u → KRun sv s u
+
+theorem KStep.any {sv : SolverCfg S} {s t : KSt S} (h : KStep sv s t) : KStepAny sv s t := by
+  cases h with
+  | pop N rest hpop _ hturn => exact KStepAny.pop s t N rest hpop hturn
 
 theorem KRun.head {sv : SolverCfg S} {s t u : KSt S} (h1 : KStep sv s t) (h2 : KRun sv t u) : KRun sv s u := by
   induction h2 with
@@ -285,5 +296,146 @@ theorem ksolveSched_run (sv : SolverCfg S) : ∀ (sched : List Nat) (s : KSt S),
       cases ht : sv.kturn s N rest with
       | none => exact KRunAny.refl s
       | some t => exact KRunAny.head (KStepAny.pop s t N rest (popAt_perm _ _ _ _ hp) ht) (ih t)
+
+/-- the best-first loop is a run with arbitrary pops -/
+theorem ksolveLoop_runAny (sv : SolverCfg S) : ∀ (n : Nat) (s : KSt S), KRunAny sv s (sv.ksolveLoop n s) := by
+  intro n
+  induction n with
+  | zero => intro s; exact KRunAny.refl s
+  | succ n ih =>
+    intro s
+    unfold SolverCfg.ksolveLoop
+    cases hp : popMax s.st.fringe with
+    | none => exact KRunAny.refl s
+    | some Nr =>
+      obtain ⟨N, rest⟩ := Nr
+      obtain ⟨hpop, _⟩ := popMax_spec s.st.fringe N rest hp
+      dsimp only
+      cases ht : sv.kturn s N rest with
+      | none => exact KRunAny.refl s
+      | some t => exact KRunAny.head (KStepAny.pop s t N rest hpop ht) (ih t)
+
+/-- a best-first run is a run with arbitrary pops -/
+theorem KRun.any {sv : SolverCfg S} {s t : KSt S} (h : KRun sv s t) : KRunAny sv s t := by
+  induction h with
+  | refl => exact KRunAny.refl _
+  | tail _ hstep ih => exact KRunAny.tail ih hstep.any
+
+/-! ## the pre-fix (capped) variant, kept for the D14 witnesses
+
+The solver **before** the repair of finding D14: `enqueue_cutset(ub)` caps the bound of every cut-set node by the bound of the
+sub-problem that was just processed (`SeqSt.enqueueCapped`).  Everything else is `kprocess` / `kturn` / … line by line. -/
+
+/-- pre-fix (capped) variant, kept for the D14 witnesses: `process_one_node(N)` with the capped `enqueue_cutset(N.ub)`
+    (`SolverCfg.kprocess` calling `SeqSt.enqueueCapped`) -/
+def _root_.Ddo.C01.SolverCfg.kprocessCapped (sv : SolverCfg S) (st : SeqSt S) (c0 : Cache S) (N : SubP S) : Option (KSt S) :=
+  if N.ub ≤ st.bestLb then some ⟨st, c0⟩
+  else
+    match c0.mustExplore N.state N.depth N.value with
+    | none => none
+    | some false => some ⟨st, c0⟩
+    | some true =>
+      if sv.coutR c0 N st.bestLb ≠ .ok then none
+      else
+        match applyUps c0 (sv.cresR c0 N st.bestLb).cacheUpdates.reverse with
+        | none => none
+        | some c1 =>
+          let st1 := st.updateBest (toOut (sv.cresR c0 N st.bestLb))
+          if (sv.cresR c0 N st.bestLb).isExact then some ⟨st1, c1⟩
+          else if sv.coutX c1 N st1.bestLb ≠ .ok then none
+          else
+            match applyUps c1 (sv.cresX c1 N st1.bestLb).cacheUpdates.reverse with
+            | none => none
+            | some c2 =>
+              let st2 := st1.updateBest (toOut (sv.cresX c1 N st1.bestLb))
+              if (sv.cresX c1 N st1.bestLb).isExact then some ⟨st2, c2⟩
+              else some ⟨st2.enqueueCapped sv.dedup N.ub (sv.cresX c1 N st1.bestLb).cutset, c2⟩
+
+/-- pre-fix (capped) variant, kept for the D14 witnesses: one turn of the loop of `maximize` (`SolverCfg.kturn` with
+    `kprocessCapped`) -/
+def _root_.Ddo.C01.SolverCfg.kturnCapped (sv : SolverCfg S) (s : KSt S) (N : SubP S) (rest : List (SubP S)) : Option (KSt S) :=
+  match cleanCache sv.P.nbVars s.st.openByLayer sv.P.nbVars s.st.firstActive s.cache with
+  | none => none
+  | some c0 =>
+    sv.kprocessCapped (popped s.st N rest (cleanLoop sv.P.nbVars s.st.openByLayer sv.P.nbVars s.st.firstActive)) c0 N
+
+/-- pre-fix (capped) variant, kept for the D14 witnesses: one turn with an arbitrary pop -/
+inductive KStepAnyCapped (sv : SolverCfg S) : KSt S → KSt S → Prop
+  | pop (s t : KSt S) (N : SubP S) (rest : List (SubP S))
+      (hpop : s.st.fringe.Perm (N :: rest))
+      (hturn : sv.kturnCapped s N rest = some t) : KStepAnyCapped sv s t
+
+/-- pre-fix (capped) variant, kept for the D14 witnesses: finite runs with arbitrary pops -/
+inductive KRunAnyCapped (sv : SolverCfg S) : KSt S → KSt S → Prop
+  | refl (s : KSt S) : KRunAnyCapped sv s s
+  | tail {s t u : KSt S} : KRunAnyCapped sv s t → KStepAnyCapped sv t u → KRunAnyCapped sv s u
+
+theorem KRunAnyCapped.head {sv : SolverCfg S} {s t u : KSt S} (h1 : KStepAnyCapped sv s t) (h2 : KRunAnyCapped sv t u) :
+    KRunAnyCapped sv s u := by
+  induction h2 with
+  | refl => exact KRunAnyCapped.tail (KRunAnyCapped.refl _) h1
+  | tail _ hstep ih => exact KRunAnyCapped.tail ih hstep
+
+/-- pre-fix (capped) variant, kept for the D14 witnesses: the loop with the deterministic best-first pop `popMax`
+    (fuel-driven) -/
+def _root_.Ddo.C01.SolverCfg.ksolveLoopCapped (sv : SolverCfg S) : Nat → KSt S → KSt S
+  | 0, s => s
+  | n + 1, s =>
+    match popMax s.st.fringe with
+    | none => s
+    | some (N, rest) =>
+      match sv.kturnCapped s N rest with
+      | none => s
+      | some t => sv.ksolveLoopCapped n t
+
+/-- pre-fix (capped) variant, kept for the D14 witnesses: the loop with an explicit pop schedule (turn `j` pops the entry
+    of index `sched[j]` of the fringe) -/
+def _root_.Ddo.C01.SolverCfg.ksolveSchedCapped (sv : SolverCfg S) : List Nat → KSt S → KSt S
+  | [], s => s
+  | i :: sched, s =>
+    match popAt s.st.fringe i with
+    | none => s
+    | some (N, rest) =>
+      match sv.kturnCapped s N rest with
+      | none => s
+      | some t => sv.ksolveSchedCapped sched t
+
+/-- pre-fix (capped) variant, kept for the D14 witnesses: the scheduled capped loop is a run of the capped solver with
+    arbitrary pops -/
+theorem ksolveSchedCapped_run (sv : SolverCfg S) :
+    ∀ (sched : List Nat) (s : KSt S), KRunAnyCapped sv s (sv.ksolveSchedCapped sched s) := by
+  intro sched
+  induction sched with
+  | nil => intro s; exact KRunAnyCapped.refl s
+  | cons i sched ih =>
+    intro s
+    unfold SolverCfg.ksolveSchedCapped
+    cases hp : popAt s.st.fringe i with
+    | none => exact KRunAnyCapped.refl s
+    | some Nr =>
+      obtain ⟨N, rest⟩ := Nr
+      dsimp only
+      cases ht : sv.kturnCapped s N rest with
+      | none => exact KRunAnyCapped.refl s
+      | some t => exact KRunAnyCapped.head (KStepAnyCapped.pop s t N rest (popAt_perm _ _ _ _ hp) ht) (ih t)
+
+/-- pre-fix (capped) variant, kept for the D14 witnesses: the best-first capped loop is a run of the capped solver -/
+theorem ksolveLoopCapped_run (sv : SolverCfg S) :
+    ∀ (n : Nat) (s : KSt S), KRunAnyCapped sv s (sv.ksolveLoopCapped n s) := by
+  intro n
+  induction n with
+  | zero => intro s; exact KRunAnyCapped.refl s
+  | succ n ih =>
+    intro s
+    unfold SolverCfg.ksolveLoopCapped
+    cases hp : popMax s.st.fringe with
+    | none => exact KRunAnyCapped.refl s
+    | some Nr =>
+      obtain ⟨N, rest⟩ := Nr
+      obtain ⟨hpop, _⟩ := popMax_spec s.st.fringe N rest hp
+      dsimp only
+      cases ht : sv.kturnCapped s N rest with
+      | none => exact KRunAnyCapped.refl s
+      | some t => exact KRunAnyCapped.head (KStepAnyCapped.pop s t N rest hpop ht) (ih t)
 
 end Ddo.C09
